@@ -420,10 +420,11 @@ def run_task(args):
             if sig in known_sigs or clause.kind in ("enum", "fuzz"):
                 continue
             sub = sig.split("|", 1)[1]
+            cap = shrink_cap if clause.shrink_cap is None else min(shrink_cap, clause.shrink_cap)
             if clause.kind == "given":
-                r = _shrink_given(clause, seed, n, sub, shrink_cap)
+                r = _shrink_given(clause, seed, n, sub, cap)
             else:
-                r = _shrink_history(clause, seed, n, sub, shrink_cap)
+                r = _shrink_history(clause, seed, n, sub, cap)
             if r is not None:
                 case, detail = r
                 case = json.loads(canon(case))
